@@ -240,7 +240,10 @@ def _literals_in_order(url, literals):
     return -1
 
 
-def roundtrip(shape, path, rebuild=False):
+ALT_HOLE = {None: "zz", "int": "7", "float": "2.5", "path": "q/r"}     # another value per wildcard kind ('re': the judged text)
+
+
+def roundtrip(shape, path, rebuild=False, alt_holes=None):
     """None if the property holds for `path` on a fresh router holding shape.text only, else what failed.
     rebuild: the URL is built on a route object with a history - an incomplete build first (the last parameter missing:
     url() raises), then the build that is judged, then the same build again (must give the same URL)"""
@@ -271,8 +274,28 @@ def roundtrip(shape, path, rebuild=False):
                 route.url(*args, **{k: v for k, v in named.items() if k != wild[-1].name})
         except Exception:  # noqa - an incomplete build is refused; how is not the subject
             cover("incomplete-refused")
+    before = None
+    if rebuild == "history" and len(wild) > 1:
+        # since seed C19-k: a complete build with the judged parameters, then a build with OTHER values for the earlier
+        # wildcards that is refused at the last one (its value is missing), then the judged build
+        before = route.url(*args, **named)
+        alt = _resolve(router, seen, _path_of(shape, [ALT_HOLE.get(w.filter) or h for w, h in zip(wild, alt_holes)])) if alt_holes else None
+        if alt is not None and alt[0] is route:
+            cover("history-other-values")
+            a_named, a_values = alt[1], alt[2]
+            a_args = [a_values[i] for i, w in enumerate(wild) if w.name is None]
+            try:
+                if wild[-1].name is None:
+                    route.url(*a_args[:-1], **a_named)
+                else:
+                    route.url(*a_args, **{k: v for k, v in a_named.items() if k != wild[-1].name})
+            except Exception:  # noqa
+                cover("incomplete-refused")
     try:
         url = route.url(*args, **named)
+        if before is not None and url != before:
+            return ("rule %r, parameters %r / %r: url() gave %r, then - after a refused build with other values for the earlier "
+                    "wildcards - %r" % (rule, args, named, before, url))
         if rebuild:
             again = route.url(*args, **named)
             if again != url:
@@ -344,12 +367,14 @@ def make_holes(shape, sizes):
     return q
 
 
-def make_rebuild(shape, sizes):
+def make_rebuild(shape, sizes, history=False):
     def q(h0: str, h1: str, h2: str):
         holes = [h0, h1, h2][:len(sizes)]
         for h, k in zip(holes, sizes):
             assume(len(h) <= k)
             _restrict(shape, h)
+        if history:
+            return roundtrip(shape, _path_of(shape, holes), rebuild="history", alt_holes=holes)
         return roundtrip(shape, _path_of(shape, holes), rebuild=True)
     return q
 
@@ -436,6 +461,13 @@ def queries(tier):
                      "on the same route object; symbolic text of len <= %s at the wildcards" % (sh.text, " / ".join(map(str, sizes))),
                      timeout=200 if not T else 900, expect_cover=["matched", "incomplete-refused"], family="rebuild",
                      config={"rule": sh.text, "hole_len": sizes}))
+        if picked <= (3 if not T else 99):
+            out.append(Q("rebuild-history/%s" % sh.tag, make_rebuild(sh, sizes, True),
+                         "rule %s: a complete url() call with the judged parameters, a call with other values for the earlier "
+                         "wildcards that is refused (last parameter missing), then the judged build (same URL as the first) and the "
+                         "round trip; symbolic text of len <= %s at the wildcards" % (sh.text, " / ".join(map(str, sizes))),
+                         timeout=200 if not T else 900, expect_cover=["matched"], family="rebuild",
+                         config={"rule": sh.text, "hole_len": sizes}))
     for a, b, sizes, quick in SEQ_PAIRS:
         if not (quick or T):
             continue
